@@ -87,6 +87,8 @@ struct RenderW {
         values.push_back(v);
     }
 
+    bool plain_text{false}, empty_cache_used{false};
+
     // one render into a fresh stream with the given prefix; returns the stream content
     bool render_once(int how, const C *content, SizeT length, const VT &value, Tags *cache, const U32 &prefix, U32 &out, TC *core = nullptr) {
         ArenaObj<Stm> stream;
@@ -102,10 +104,13 @@ struct RenderW {
         qsim::mark_shared_ro_all();
         qsim::set_block_owner_task(stream.p, 0);
         qsim::set_block_owner_task(stream->Storage(), 0);
-        if (how == 1 && cache->IsEmpty()) {
+        // (a text without any '{' or '<' cannot start a tag: parsing it never touches the cache, so from the second call on
+        // the still empty cache of such a text is as read-only as a filled one)
+        if (how == 1 && cache->IsEmpty() && !(plain_text && empty_cache_used)) {
             qsim::set_block_owner_task(cache, 0);
             qsim::set_block_owner_task(cache->Storage(), 0);
         }
+        if (how == 1) empty_cache_used = true;
         {
             LibCall lc;
             switch (how) {
@@ -189,6 +194,9 @@ struct RenderW {
             LibCall lc;
             new (cache.p) Tags();
         }
+        empty_cache_used = false;
+        plain_text       = text.find(U'{') == U32::npos && text.find(U'<') == U32::npos;
+        if (plain_text && variant == 1) qsim::probe("render.plain-text-through-empty-cache");
         U32 o1, o2, o3;
         bool ok = true;
         if (variant == 1) {
@@ -348,6 +356,7 @@ struct ConcW {
     ArenaObj<Tags>              cache;
     std::vector<TaskPlan>       tasks;
     bool                        cache_empty{false};
+    bool                        plain_text{false}; // no '{' and no '<': parsing it never touches the cache
 
     explicit ConcW(Ctx &c) : cx(c) {
     }
@@ -407,7 +416,9 @@ struct ConcW {
             TC::Parse((const C *)text.ptr, (SizeT)text.len, *cache);
         }
         cache_empty = cache->IsEmpty();
+        plain_text  = tmpl.find(U'{') == U32::npos && tmpl.find(U'<') == U32::npos;
         if (cache_empty) qsim::probe("renderconc.cache-empty-after-parse");
+        if (cache_empty && plain_text) qsim::probe("renderconc.plain-text-through-empty-cache");
         // references: a fresh single render per value (private cache), on this sequential control schedule
         uint64_t s0 = qsim::steps_now();
         for (auto *v : values) {
@@ -459,7 +470,9 @@ struct ConcW {
             // Template::Render(..., cache) parses whenever the cache is EMPTY; a template that yields no tags leaves it
             // empty after Parse, and re-parsing into the shared cache from several threads is outside "threads that
             // share the parsed tags" (DESIGN §4 C17): that entry point is used with a non-empty cache only.
-            if (rr.second == 0 || cache_empty) {
+            // A text without any '{' or '<' is the exception: its parse finds nothing and writes nothing, so the public
+            // entry point is used for it even though the cache stays empty.
+            if (rr.second == 0 || (cache_empty && !plain_text)) {
                 TC temp{(const C *)text.ptr, (SizeT)text.len};
                 temp.Render(*cache, v, **t.stream);
             } else {
